@@ -4,6 +4,7 @@ board against a per-call reference written from the statement (the host Buzzer i
 from __future__ import annotations
 
 import copy
+import re
 import math
 import struct
 from typing import Dict, Iterable, List, Optional, Tuple
@@ -73,6 +74,7 @@ class BuzzGen:
         if r.random() < 0.2 and default is None:
             form, pin = "bz = Buzzer()", 8
         self.lines = ['pot = Potentiometer("A0")', form]
+        self.defs: List[str] = []
         calls = []
         n_calls = r.randint(1, 12 if self.tier == "quick" else 24)
         loop_at = r.randint(0, n_calls) if r.random() < 0.4 else None
@@ -156,6 +158,10 @@ class BuzzGen:
                 else:
                     ta = self.arg(tempo, depth)
                     text = r.choice([f'bz.melody("{name}", tempo={ta})', f'bz.melody(name="{name}", tempo={ta})'])
+            if r.random() < 0.25 and not re.search(r"\ba\d+\b", text):
+                # the same command issued from inside a helper function: the tracked buzzer state is global
+                self.defs += [f"def act{k}():", "    " + text]
+                text = f"act{k}()"
             self.lines.append(ind + text)
             self.lines.append(ind + "mon.write(bz.get_state())")
             self.lines.append(ind + "mon.write(bz.get_frequency())")
@@ -169,7 +175,7 @@ class BuzzGen:
         passes = r.choice([1, 2, 3]) if loop_at is not None else 0
         # every pass re-reads the potentiometer in the same order: repeat the setup readings, then the loop readings per pass
         return {
-            "script": HEAD + "\n".join(self.lines) + "\n",
+            "script": HEAD + "\n".join(self.lines[:2] + self.defs + self.lines[2:]) + "\n",
             "pin": pin,
             "default": 440.0 if default is None else default,
             "calls": calls,
